@@ -63,15 +63,29 @@ def gen_scenario(seed):
     index = w.clone_files()
     sessions = ["s1", "s2"][: 1 + rng.below(2)]
     tags = []
-    ncommits = 2 + rng.below(3)
+    ncommits = 2 + rng.below(4)
+    spare = ["new1.txt", "pkg/new2.rs"]          # files that do not exist yet: created (untracked) by an edit
     for ci in range(ncommits):
+        # a round without any agent: its working log has no AI checkpoint while AI lines may be pending
+        human_round = 0 < ci < ncommits - 1 and rng.chance(1, 3)
+        if human_round:
+            tags.append("round=human-only")
         for _ in range(1 + rng.below(5)):
-            who = rng.pick(sessions + sessions + ["human"])
-            path = rng.pick(names)
+            who = "human" if human_round else rng.pick(sessions + sessions + ["human"])
+            if spare and rng.chance(1, 6):
+                path = spare.pop(0)
+                names.append(path)
+                tags.append("new-file-by=" + ("ai" if who != "human" else "human"))
+            else:
+                path = rng.pick(names)
             if who != "human":
                 steps.append({"op": "human_checkpoint", "paths": [path]})
             kind = S.gen_edit(rng, w, path, who, "plain")
             steps.append({"op": "edit", "who": who, "path": path, "kind": kind, "lines": [list(l) for l in w.files[path]]})
+            if rng.chance(1, 5):
+                # an explicit checkpoint between edits (takes pending attribution over into the working log)
+                steps.append(rng.pick([{"op": "checkpoint"}, {"op": "human_checkpoint", "paths": [path]}]))
+                tags.append("explicit-checkpoint")
         last = ci == ncommits - 1
         mode = "all" if last else rng.pick(["files", "hunks", "hunks", "all"])
         if mode == "all":
@@ -91,7 +105,7 @@ def gen_scenario(seed):
             for n in names:
                 if w.files[n] == index.get(n):
                     continue
-                ver, took, left = partial_version(rng, index[n], w.files[n])
+                ver, took, left = partial_version(rng, index.get(n, []), w.files[n])
                 if took:
                     steps.append({"op": "stage_content", "path": n, "lines": ver})
                     index[n] = ver
@@ -146,6 +160,8 @@ def _run_scenario(sc):
                 if st["op"] == "human_checkpoint":
                     for p_ in (st.get("paths") or list(watch)):
                         watch.discard(p_)
+                if st["op"] == "checkpoint":
+                    watch.clear()
                 snap = None
                 if st["op"] == "commit" and sc.get("correspond") and len(run.commits) >= 1:
                     snap = split_corr.snapshot_before_commit(run.repo)
@@ -244,6 +260,6 @@ def run(tier, seed):
         return res.finish()
     if os.path.exists(os.path.join(C.LEAN, "GitAiModel", "Props", "C04.lean")):
         C.phase_proofs(res, PROP, THEOREMS)
-    nsc = 48 if tier == "quick" else 1200
+    nsc = 128 if tier == "quick" else 2400
     phase_e2e(res, [seed * 100000 + i for i in range(nsc)])
     return res.finish()
